@@ -9,6 +9,11 @@ UNIT = 1e-20          # abstract rate 1 = 1e-20 W m^3 ; abstract density 1 = 1e1
 NU = 1e10
 
 
+def nu(rec):
+    """density unit of a record: 1e10 m^-3 x 10^mag"""
+    return NU * 10.0 ** rec.get("mag", 0)
+
+
 def element(sym):
     from cherab.core.atomic import elements as E
     return getattr(E, EL[sym])
@@ -42,7 +47,10 @@ def provider(rates, calls):
         return C()
 
     class G(FreeFreeGauntFactor):
-        def evaluate(self, z, te, wl): return float(rates["gaunt"])
+        def evaluate(self, z, te, wl):
+            calls.append(("eval", "gaunt", (float(z), float(te), float(wl))))
+            g = rates["gaunt"]
+            return float(g[int(round(z)) - 1]) if isinstance(g, list) else float(g)
 
     class A(AtomicData):
         def wavelength(self, ion, charge, transition):
@@ -100,7 +108,7 @@ def plasma(rec, vel=None):
     from cherab.core.math import Constant3D, ConstantVector3D
     p = Plasma()
     zero = ConstantVector3D(Vector3D(0, 0, 0))
-    p.electron_distribution = Maxwellian(Constant3D(rec["ne"] * NU), Constant3D(float(rec["te"])), zero, 9.1093837015e-31)
+    p.electron_distribution = Maxwellian(Constant3D(rec["ne"] * nu(rec)), Constant3D(float(rec["te"])), zero, 9.1093837015e-31)
     p.b_field = ConstantVector3D(Vector3D(0, 3.0, 4.0))
     sp = []
     for s, d in rec["dens"].items():
@@ -108,7 +116,7 @@ def plasma(rec, vel=None):
             continue
         sym, q, _ = rec["species"][s]
         v = ConstantVector3D(Vector3D(*(vel or {}).get(s, (0, 0, 0))))
-        sp.append(Species(element(sym), q, Maxwellian(Constant3D(d * NU), Constant3D(float(rec["temp"][s])), v, MASS[sym] * AMU)))
+        sp.append(Species(element(sym), q, Maxwellian(Constant3D(d * nu(rec)), Constant3D(float(rec["temp"][s])), v, MASS[sym] * AMU)))
     p.composition = sp
     return p
 
